@@ -930,6 +930,61 @@ def replay_remap(p):
     return _res(bad, {'rows': n, 'how': how, 'kind': kind})
 
 
+def replay_second_dtype(p):
+    """One specification written twice with data of different dtypes: in the second file the slots decode, under the
+    representation code the channel declares, to the second data (cast to that code's dtype)."""
+    _quiet()
+    from dliswriter import DLISFile
+    dt1, dt2, n, cast = p['args'][:4]
+    names = ['int8', 'int16', 'int32', 'uint8', 'uint16', 'uint32', 'float32', 'float64']
+    codes = {12: '>i1', 13: '>i2', 14: '>i4', 15: '>u1', 16: '>u2', 17: '>u4', 2: '>f4', 7: '>f8'}
+    d1 = (np.arange(n) + 3).astype(names[dt1])
+    d2 = (np.arange(n) * 2 + 40).astype(names[dt2])
+    df = DLISFile()
+    lf = df.add_logical_file()
+    lf.add_origin('O', file_set_number=1, creation_time='2020/01/01 00:00:00')
+    a = lf.add_channel('A', cast_dtype=np.float64 if cast else None)
+    lf.add_frame('F', channels=(a,))
+    bad = ''
+    path = fresh_tmp()
+    try:
+        df.write(path, data={'A': d1}, output_chunk_size=65536)
+        df.write(path, data={'A': d2}, output_chunk_size=65536)
+        r = strict.parse_file(open(path, 'rb').read())
+        lfv = r['logical_files'][0]
+        errs, _ids = strict.check_logical_file(lfv)
+        code = None
+        for rec, e in lfv.eflrs:
+            if e.set_type == 'CHANNEL':
+                code = strict.attr_of(e.objects[0][1], 'REPRESENTATION-CODE').value[0]
+        if errs:
+            bad = '; '.join(errs[:2])
+        got = []
+        for rec, ob, pos in lfv.iflrs:
+            if rec.type == 0 and not bad:
+                num, q = strict.dec_uvari(rec.body, pos)
+                raw = rec.body[q:]
+                dt = np.dtype(codes[code])
+                if len(raw) != dt.itemsize:
+                    bad = f'channel declared with code {code} ({dt.itemsize} bytes), the slot has {len(raw)} bytes'
+                else:
+                    got.append(np.frombuffer(raw, dtype=dt)[0])
+        if not bad:
+            want = d2.astype(np.dtype(codes[code]).newbyteorder('='))
+            if [x.tobytes() for x in np.array(got).astype(want.dtype)] != [x.tobytes() for x in want]:
+                bad = f'second file: slots decode under code {code} to {got}, the data were {d2.tolist()} ({names[dt2]})'
+    except strict.StrictError as e:
+        bad = f'strict reader: {e}'
+    except (ValueError, RuntimeError, TypeError) as e:
+        bad = ''
+    finally:
+        try:
+            os.remove(path)
+        except OSError:
+            pass
+    return _res(bad, {'dtypes': [names[dt1], names[dt2]], 'rows': n})
+
+
 def replay_declared_count(p):
     """Declared length of the record sequence against the records it yields (deterministic), on the real package."""
     _quiet()
